@@ -139,6 +139,9 @@ type iface struct {
 	Workgroup [3]int     `json:"workgroup"`
 	// AllResourcesUsed: every resource flows into an observable output.
 	AllResourcesUsed bool `json:"all_resources_used"`
+	// NumWorkgroups: the entry point reads @builtin(num_workgroups), for
+	// which the backend documents a synthetic constant buffer at b0, space0.
+	NumWorkgroups bool `json:"num_workgroups,omitempty"`
 }
 
 type gen struct {
